@@ -202,9 +202,38 @@ std::string solveUF(Spec const & sp) {
     return withModel(solver, logic, assertions, res);
 }
 
+// family 4: the arbitrary-precision kernels themselves (gcd, lcm, floor, ceil, floor division, exact division, + - * /)
+std::string numberKernel(Spec const & sp) {
+    std::mt19937_64 rng(sp.seed);
+    auto big = [&](int limbs) {
+        std::string s = std::to_string(1 + rng() % 9);
+        for (int i = 0; i < limbs * 9; ++i) s += std::to_string(rng() % 10);
+        return FastRational(s.c_str());
+    };
+    std::size_t hash = 1469598103934665603ull;
+    auto mix = [&](FastRational const & r) {
+        for (char c : r.get_str()) { hash = (hash ^ static_cast<unsigned char>(c)) * 1099511628211ull; }
+    };
+    for (int it = 0; it < 1500; ++it) {
+        FastRational a = big(2 + int(rng() % 3)), b = big(2 + int(rng() % 2));
+        if (rng() % 2) a = -a;
+        FastRational g = gcd(a, b);
+        mix(g);
+        mix(lcm(a, b));
+        mix(fastrat_fdiv_q(a, b));
+        mix(divexact(a * b, b));
+        FastRational q = a / b;
+        mix(q.floor());
+        mix(q.ceil());
+        mix(q + g - a * FastRational(3));
+    }
+    return "hash:" + std::to_string(hash);
+}
+
 std::string solve(Spec const & sp, std::string * truth) {
     try {
         switch (sp.family) {
+            case 4: return numberKernel(sp);
             case 0: return solveInteger(sp, true, truth);
             case 1: return solveRational(sp);
             case 2: return solveUF(sp);
@@ -227,8 +256,8 @@ int main(int argc, char ** argv) {
     for (int r = 0; r < rounds; ++r) {
         std::vector<Spec> specs;
         for (int t = 0; t < threads; ++t) {
-            unsigned k = rng() % 10;
-            int family = k < 5 ? 0 : k < 7 ? 1 : k < 9 ? 2 : 3;
+            unsigned k = rng() % 12;
+            int family = k < 5 ? 0 : k < 7 ? 1 : k < 9 ? 2 : k < 10 ? 3 : 4;
             specs.push_back({family, static_cast<unsigned>(rng()), t});
         }
         std::vector<std::string> alone(threads), conc(threads), truth(threads);
@@ -246,7 +275,7 @@ int main(int argc, char ** argv) {
         for (int t = 0; t < threads; ++t) {
             stat["instances"]++;
             stat["family_" + std::to_string(specs[t].family)]++;
-            stat["alone_" + alone[t].substr(0, alone[t].find(':'))]++;
+            stat["alone_" + (specs[t].family == 4 ? std::string("kernel") : alone[t].substr(0, alone[t].find(':')))]++;
             bool bad = conc[t] != alone[t] or alone[t].find("model-bad") != std::string::npos or
                        alone[t].rfind("exception", 0) == 0;
             if (not truth[t].empty() and alone[t].rfind(truth[t], 0) != 0) bad = true;
